@@ -116,6 +116,10 @@ func (c04) Gen(r *rand.Rand, tier string, run int) *core.Case {
 		c.Params["callers"] = callers
 		c.Params["slow_ms"] = 1 + r.IntN(3)
 		c.Params["crowd"] = 1
+		c.Params["spare_delay"] = r.IntN(200)
+		if r.IntN(2) == 0 {
+			c.Params["doomed_obj"] = r.IntN(nObj)
+		}
 		kinds = []string{"slow", "slow", "slow", "echo", "fire", "noarg", "cancel-echo"}
 	}
 	if c.Net.ReadMode != "tiny" && r.IntN(3) == 0 {
@@ -276,6 +280,11 @@ func (c04) Run(c *core.Case, env *core.Env) {
 			}
 		}
 	}
+	// (crowd batch) one of the crowded objects is terminated by a client in
+	// the middle of the crowd: its own mailbox goroutine takes the service's
+	// lock for writing while requests for it are queueing. Calls to it may
+	// then fail with "object not found"; nothing else may suffer.
+	doomed := c.P("doomed_obj", -1)
 	var direct probe.ProbeProxy
 	if c.P("direct", 0) == 1 {
 		zzsim.SetNode("server")
@@ -338,6 +347,19 @@ func (c04) Run(c *core.Case, env *core.Env) {
 				c04op(env, a, i, op, proxies[op.X][op.Y])
 			}
 		}(a)
+	}
+	if doomed >= 0 && doomed < len(proxies[0]) && doomed < len(w.ObjIDs) {
+		wg.Add(1)
+		go func() {
+			defer wg.Done()
+			for j := 0; j < c.P("spare_delay", 0); j++ {
+				zzsim.Yield("h.doom-delay")
+			}
+			h := env.Invoke(46, "terminate-object", fmt.Sprintf("o%d", doomed))
+			err := proxies[0][doomed].Terminate(w.ObjIDs[doomed])
+			env.Return(h, "", err)
+			env.Probe("crowded-object-terminated")
+		}()
 	}
 	wg.Wait()
 	env.Note("all actors returned")
@@ -518,7 +540,9 @@ func (c04) Check(c *core.Case, env *core.Env, res zzsim.Result, v *core.Verdict)
 			// only: its caller cancelled it, or the endpoint shed it because a
 			// queue was full and said so. Anything else means the call's own
 			// answer went astray.
-			if !h.OK && c.Batch != "faults" && !strings.Contains(h.Err, "ancel") && !strings.Contains(h.Err, "consumer blocked") {
+			if !h.OK && strings.HasSuffix(h.Arg, fmt.Sprintf("@o%d", c.P("doomed_obj", -1))) && strings.Contains(h.Err, "bject not found") {
+				env.Probe("call-to-the-terminated-object-refused")
+			} else if !h.OK && c.Batch != "faults" && !strings.Contains(h.Err, "ancel") && !strings.Contains(h.Err, "consumer blocked") {
 				bad("answer-lost-on-healthy-connection", "%s failed although nothing is wrong with the connection and nobody cancelled it: %s", h, h.Err)
 			}
 		}
